@@ -2618,6 +2618,26 @@ def ensure_unique_bound_variables(  # noqa: C901
             lambda a, b: a | b,
             [ensure_unique_bound_variables(arg, used_names) for arg in formula.args],
         )
+    elif isinstance(formula, NumericQuantifiedFormula):
+        # Numeric quantifiers can get duplicated when "XPath" expressions are
+        # translated to several match expressions. The parser does not accept two
+        # declarations of the same numeric variable, so the copies have to be renamed
+        # for the formula to be unparsed to a valid constraint.
+        bound_variable = formula.bound_variable
+        inner_formula = formula.inner_formula
+        if bound_variable.name in used_names:
+            fresh_variable = fresh_bound_variable(
+                used_names, bound_variable, add=False
+            )
+            inner_formula = inner_formula.substitute_variables(
+                {bound_variable: fresh_variable}
+            )
+            bound_variable = fresh_variable
+
+        used_names.add(bound_variable.name)
+        return type(formula)(
+            bound_variable, ensure_unique_bound_variables(inner_formula, used_names)
+        )
     else:
         return formula
 
